@@ -100,13 +100,11 @@ type harness struct {
 	// catches are the boundary events' nodes
 	catches []*catchEvent
 	// inside maps the tokens inside the activity (numbered as they enter) to the
-	// channel their flow waits on, withdraw holds the termination channels of the
-	// listener flows armed for them (all owned by run: whether a token leaves by
-	// the activity's answer or is withdrawn by an interrupting boundary event is
+	// channel their flow waits on (owned by run: whether a token leaves by the
+	// activity's answer or is withdrawn by an interrupting boundary event is
 	// decided there, once)
-	seq      int
-	inside   map[int]chan IAction
-	withdraw []chan bool
+	seq    int
+	inside map[int]chan IAction
 }
 
 func (node *harness) ConsumeEvent(ev event.IEvent) (result event.ConsumptionResult, err error) {
@@ -191,6 +189,9 @@ func newHarness(wr *wiring, idGenerator id.IGenerator, constructor constructor) 
 			var actionTransformer ActionTransformer
 			if interrupting {
 				actionTransformer = func(sequenceFlowId *schema.IdRef, action IAction) IAction {
+					if _, withdrawn := action.(noAction); withdrawn {
+						return action
+					}
 					// every activation can be interrupted, not only the first; an event
 					// that races with the activity's answer interrupts it or comes too
 					// late, never both
@@ -213,6 +214,9 @@ func newHarness(wr *wiring, idGenerator id.IGenerator, constructor constructor) 
 				}
 			} else {
 				actionTransformer = func(sequenceFlowId *schema.IdRef, action IAction) IAction {
+					if _, withdrawn := action.(noAction); withdrawn {
+						return action
+					}
 					// the activity goes on and so does the listening: once per event,
 					// not once per activation
 					select {
@@ -237,20 +241,25 @@ func (node *harness) arm(ctx context.Context) {
 	}
 }
 
+// listen puts a listener at a boundary event and waits until it listens there.
+// The activity is asked for its next action only once its boundary events listen
+// (an event delivered right after the activity became active was lost when it
+// overtook the listener on its way to the boundary event), and a listener is
+// never overtaken by the withdrawal that follows the activity's answer.
 func (node *harness) listen(ctx context.Context, listener int) {
-	ch := make(chan bool, 1)
-	flowable := node.listeners[listener](ctx)
-	flowable.SetTerminate(func(*schema.IdRef) chan bool { return ch })
-	flowable.Start(ctx)
-	node.withdraw = append(node.withdraw, ch)
+	listening := make(chan struct{})
+	node.catches[listener].listening.Store(&listening)
+	node.listeners[listener](ctx).Start(ctx)
+	select {
+	case <-listening:
+	case <-ctx.Done():
+	}
 }
 
-// disarm ends the listener flows that still wait at their boundary event
+// disarm ends the listener flows that still wait at their boundary event. It goes
+// through the boundary events' own inboxes, behind the events delivered while the
+// activity was still waiting: those still get their exception flow.
 func (node *harness) disarm() {
-	for _, ch := range node.withdraw {
-		ch <- true
-	}
-	node.withdraw = nil
 	for _, catch := range node.catches {
 		catch.reset()
 	}
@@ -265,8 +274,8 @@ func (node *harness) run(ctx context.Context, sender tracing.ISenderHandle) {
 			switch m := msg.(type) {
 			case nextHarnessActionMessage:
 				if len(node.inside) == 0 {
-					node.arm(ctx)
 					atomic.StoreInt32(&node.active, 1)
+					node.arm(ctx)
 				}
 				node.seq++
 				out := make(chan IAction, 1)
